@@ -4,6 +4,8 @@
 //!   `int <fmt> <bits:8|16> <fam:g|a|rgb|rgba> <pat:0..3> <w> <h> <start>`
 //!   `f32 <fmt> <fam> <w> <h> <hex,hex,...>`          explicit binary32 bit patterns, tiled over the image
 //!   `sup <fmt>`                                      encoding_support() of the format (flag table tie)
+//!   `carrier <fmt> <u8|u16|f32> <g|a|rgb|rgba> <hex,...>`  one row (1..64 pixels) in ONE colour format; result = the
+//!                                                    encoded bytes (tie of the conversion chain `EncCarrier.lean`)
 //!
 //! Result `ok <len> <fnv64 of the encoded bytes, near-tie pixels zeroed>` / `err <kind>`.
 //!
@@ -1328,6 +1330,7 @@ pub fn run(line: &str) -> Option<(String, Vec<String>)> {
             let vals: Option<Vec<u32>> = t[2].split(',').map(|h| if h.is_empty() || h.len() > 8 { None } else { u32::from_str_radix(h, 16).ok() }).collect();
             q32_run(t[1], &vals?)
         }
+        "carrier" => carrier_run(&t),
         "sup" => {
             let f = find(t.get(1)?)?;
             let s = f.fmt.encoding_support()?;
@@ -1479,6 +1482,117 @@ fn q32_run(name: &str, vals: &[u32]) -> Option<(String, Vec<String>)> {
     Some((format!("q {}", codes.join(",")), o.msgs))
 }
 
+// ------------------------------------------------------------------------------------------
+// `carrier <fmt> <u8|u16|f32> <g|a|rgb|rgba> <hex,…>`: ONE row of up to 64 pixels in ONE colour format through
+// `dds::encode`; result = the encoded bytes.  Tie of the bit-level conversion chain of `EncCarrier.lean`
+// (`pick_encoder` path, `convert_channels`, `as_rgba_f32`, the closures) — no tolerance, no masking.  The
+// property's own predicate about carriers is the `carrier:` oracle of the `int` / `f32` lines.
+
+/// the formats whose whole chain is bit-level in the model (`EncCarrier.bitLevelNames`)
+const BITLEVEL: [&str; 30] = [
+    "R8G8B8_UNORM", "B8G8R8_UNORM", "R8G8B8A8_UNORM", "R8G8B8A8_SNORM", "B8G8R8A8_UNORM", "B8G8R8X8_UNORM", "B5G6R5_UNORM",
+    "B5G5R5A1_UNORM", "B4G4R4A4_UNORM", "A4B4G4R4_UNORM", "R8_SNORM", "R8_UNORM", "R8G8_UNORM", "R8G8_SNORM", "A8_UNORM",
+    "R16_UNORM", "R16_SNORM", "R16G16_UNORM", "R16G16_SNORM", "R16G16B16A16_UNORM", "R16G16B16A16_SNORM", "R10G10B10A2_UNORM",
+    "R9G9B9E5_SHAREDEXP", "R32_FLOAT", "R32G32_FLOAT", "R32G32B32_FLOAT", "R32G32B32A32_FLOAT", "R1_UNORM", "R8G8_B8G8_UNORM",
+    "G8R8_G8B8_UNORM",
+];
+
+fn carrier_run(t: &[&str]) -> Option<(String, Vec<String>)> {
+    if t.len() != 5 {
+        return None;
+    }
+    let f = find(t[1])?;
+    if !BITLEVEL.contains(&f.name) {
+        return None;
+    }
+    let (p, bound): (Prec, u64) = match t[2] {
+        "u8" => (Prec::U8, 1 << 8),
+        "u16" => (Prec::U16, 1 << 16),
+        "f32" => (Prec::F32, 1 << 32),
+        _ => return None,
+    };
+    let (chs, nch) = match t[3] {
+        "g" => (Channels::Grayscale, 1),
+        "a" => (Channels::Alpha, 1),
+        "rgb" => (Channels::Rgb, 3),
+        "rgba" => (Channels::Rgba, 4),
+        _ => return None,
+    };
+    let vals: Option<Vec<u32>> = t[4]
+        .split(',')
+        .map(|h| if h.is_empty() || h.len() > 8 || !h.bytes().all(|c| c.is_ascii_hexdigit()) { None } else { u32::from_str_radix(h, 16).ok() })
+        .collect();
+    let vals = vals?;
+    if vals.iter().any(|v| *v as u64 >= bound) || vals.len() % nch != 0 {
+        return None;
+    }
+    let n = vals.len() / nch;
+    if n == 0 || n > 64 {
+        return None;
+    }
+    let mut data: Vec<u8> = vec![];
+    for v in &vals {
+        match p {
+            Prec::U8 => data.push(*v as u8),
+            Prec::U16 => data.extend_from_slice(&(*v as u16).to_ne_bytes()),
+            Prec::F32 => data.extend_from_slice(&v.to_ne_bytes()),
+        }
+    }
+    let view = ImageView::new(&data, Size::new(n as u32, 1), ColorFormat::new(chs, precision(p)))?;
+    let mut out = Vec::new();
+    if let Err(e) = encode(&mut out, view, f.fmt, None, &EncodeOptions::default()) {
+        return Some((format!("err {}", err_name(&e)), vec![]));
+    }
+    let hex: String = out.iter().map(|b| format!("{b:02x}")).collect();
+    Some((format!("c {hex}"), vec![]))
+}
+
+fn gen_carrier(out: &mut Vec<String>, rng: &mut Rng, thorough: bool) {
+    let reps = if thorough { 8 } else { 2 };
+    let b8: [u32; 10] = [0, 1, 2, 63, 127, 128, 129, 253, 254, 255];
+    let b16: [u32; 14] = [0, 1, 128, 255, 256, 257, 32767, 32768, 32769, 65279, 65280, 65534, 65535, 514];
+    let mut f32s: Vec<u32> = vec![];
+    f32s.extend_from_slice(&SPEC_IN);
+    f32s.extend_from_slice(&SPEC_SMALL);
+    f32s.extend_from_slice(&SPEC_OUT);
+    f32s.extend_from_slice(&NONFINITE);
+    for name in BITLEVEL {
+        for (ps, pi) in [("u8", 0), ("u16", 1), ("f32", 2)] {
+            for (cs, nch) in [("g", 1usize), ("a", 1), ("rgb", 3), ("rgba", 4)] {
+                for r in 0..reps {
+                    // odd pixel counts exercise the padded last block of the 2x1 / 8x1 formats
+                    let n = [16usize, 13, 7, 1, 9, 64, 2, 3][r % 8];
+                    let mut vals: Vec<u32> = vec![];
+                    for i in 0..n * nch {
+                        let v = match pi {
+                            0 => if rng.chance(1, 2) { *rng.pick(&b8) } else { rng.below(256) as u32 },
+                            1 => match rng.below(3) {
+                                0 => *rng.pick(&b16),
+                                1 => rng.below(256) as u32 * 257,
+                                _ => rng.below(65536) as u32,
+                            },
+                            _ => match (r + i) % 6 {
+                                0 | 1 => *rng.pick(&f32s),
+                                2 => nearest_f32(rng.below(256) as u128, 255),
+                                3 => nearest_f32(rng.below(65536) as u128, 65535),
+                                // around the ties of 8 / 5 / 16-bit fields
+                                4 => {
+                                    let l = *rng.pick(&[255u128, 254, 31, 63, 15, 3, 1023, 65535, 65534]);
+                                    let k = 1 + rng.below(l as u64) as u128;
+                                    nearest_f32(2 * k - 1, 2 * l).wrapping_add(rng.below(5) as u32).wrapping_sub(2)
+                                }
+                                _ => rng.next() as u32,
+                            },
+                        };
+                        vals.push(v);
+                    }
+                    out.push(format!("carrier {name} {ps} {cs} {}", hexlist(&vals)));
+                }
+            }
+        }
+    }
+}
+
 fn gen_q32(out: &mut Vec<String>, rng: &mut Rng, thorough: bool) {
     for &(name, _, _, kind, _, _) in Q32.iter() {
         let l = levels(kind) as u128;
@@ -1600,6 +1714,8 @@ pub fn gen(seed: u64, thorough: bool) -> Vec<String> {
         out.push(format!("sup {}", f.name));
     }
     gen_q32(&mut out, &mut rng, thorough);
+    // own generator state: the lines that follow do not move when the `carrier` lines change
+    gen_carrier(&mut out, &mut Rng::new(seed ^ 0x6361_7272_6965_72), thorough);
     let fams = [Fam::G, Fam::A, Fam::Rgb, Fam::Rgba];
     let head = std::mem::take(&mut out);
     let mut per_format: Vec<Vec<String>> = vec![];
